@@ -618,6 +618,10 @@ impl Element {
     ///  - [`AutosarDataError::ForbiddenMoveToSubElement`]: The destination is a sub element of the source. Moving here is not possible
     ///  - [`AutosarDataError::NoFilesInModel`]: The operation cannot be completed because the model does not contain any files
     pub fn move_element_here(&self, move_element: &Element) -> Result<Element, AutosarDataError> {
+        if self == move_element {
+            // an element cannot be moved into itself; trying to do so would deadlock
+            return Err(AutosarDataError::ForbiddenMoveToSubElement);
+        }
         let model_src = move_element.model()?;
         let model = self.model()?;
         let version_src = move_element.min_version()?;
@@ -671,6 +675,10 @@ impl Element {
     ///  - [`AutosarDataError::InvalidPosition`]: This sub element cannot be created at the requested position.
     ///  - [`AutosarDataError::NoFilesInModel`]: The operation cannot be completed because the model does not contain any files
     pub fn move_element_here_at(&self, move_element: &Element, position: usize) -> Result<Element, AutosarDataError> {
+        if self == move_element {
+            // an element cannot be moved into itself; trying to do so would deadlock
+            return Err(AutosarDataError::ForbiddenMoveToSubElement);
+        }
         let model_src = move_element.model()?;
         let model = self.model()?;
         let version_src = move_element.min_version()?;
@@ -714,6 +722,13 @@ impl Element {
     ///  - [`AutosarDataError::ElementNotFound`]: The sub element was not found in this element
     ///  - [`AutosarDataError::ShortNameRemovalForbidden`]: It is not permitted to remove the SHORT-NAME of identifiable elements since this would result in invalid data
     pub fn remove_sub_element(&self, sub_element: Element) -> Result<(), AutosarDataError> {
+        if *self == sub_element {
+            // an element is never its own sub element; trying to lock it twice would deadlock
+            return Err(AutosarDataError::ElementNotFound {
+                target: sub_element.element_name(),
+                parent: self.element_name(),
+            });
+        }
         let model = self.model()?;
         self.0.write().remove_sub_element(sub_element, &model)
     }
